@@ -1,30 +1,54 @@
 //! Declarative macros for building expressions, constraints and variables.
 
 // Macro helper declarations
+//
+// `->` and `<->` bind alike, as in the text language: `<->` groups to the left
+// and the first `->` takes everything after it as its right operand, so that
+// `a <-> b -> c` is `(a <-> b) -> c` and `a -> b <-> c` is `a -> (b <-> c)`.
 #[doc(hidden)]
 #[macro_export]
 macro_rules! munch_expr {
-    // 1. Found ->
+    // 1. Found the first ->
     ([$($lhs:tt)*] -> $($rhs:tt)*) => {
         $crate::Expr::Implies(
-            Box::new($crate::expr!($($lhs)*)),
+            Box::new($crate::munch_iff!(@none [] $($lhs)*)),
             Box::new($crate::expr!($($rhs)*))
         )
     };
-    // 2. Found <->
-    ([$($lhs:tt)*] <-> $($rhs:tt)*) => {
-        $crate::Expr::Iff(
-            Box::new($crate::expr!($($lhs)*)),
-            Box::new($crate::expr!($($rhs)*))
-        )
-    };
-    // 3. Recurse
+    // 2. Recurse
     ([$($accum:tt)*] $head:tt $($tail:tt)*) => {
         $crate::munch_expr!([$($accum)* $head] $($tail)*)
     };
-    // 4. Base case
+    // 3. No -> at all
     ([$($val:tt)*]) => {
-        $crate::Expr::from($($val)*)
+        $crate::munch_iff!(@none [] $($val)*)
+    };
+}
+
+// A chain of `<->` without `->`, split at its last `<->` (left associative).
+#[doc(hidden)]
+#[macro_export]
+macro_rules! munch_iff {
+    (@none [$($cur:tt)*] <-> $($rest:tt)*) => {
+        $crate::munch_iff!(@some [$($cur)*] [] $($rest)*)
+    };
+    (@none [$($cur:tt)*] $head:tt $($rest:tt)*) => {
+        $crate::munch_iff!(@none [$($cur)* $head] $($rest)*)
+    };
+    (@none [$($cur:tt)*]) => {
+        $crate::Expr::from($($cur)*)
+    };
+    (@some [$($before:tt)*] [$($cur:tt)*] <-> $($rest:tt)*) => {
+        $crate::munch_iff!(@some [$($before)* <-> $($cur)*] [] $($rest)*)
+    };
+    (@some [$($before:tt)*] [$($cur:tt)*] $head:tt $($rest:tt)*) => {
+        $crate::munch_iff!(@some [$($before)*] [$($cur)* $head] $($rest)*)
+    };
+    (@some [$($before:tt)*] [$($cur:tt)*]) => {
+        $crate::Expr::Iff(
+            Box::new($crate::munch_iff!(@none [] $($before)*)),
+            Box::new($crate::Expr::from($($cur)*))
+        )
     };
 }
 
